@@ -1,4 +1,4 @@
-import GB.C09.Proofs
+import GB.C09.ProofsRT
 /-
   C09 — property theorems over the model of the field-level JSON codec (GB/C09/Model.lean, the code
   after fixes D9a–D9h) and the canonical proto3 JSON mapping for one field (GB/C09/Spec.lean).
@@ -194,6 +194,147 @@ example : parseInt 32 (showInt 2147483647) = some 2147483647 := by decide
 example : b64Decode (b64Encode [0, 255, 16, 97]) = some [0, 255, 16, 97] := by decide
 example : b64Decode (b64Encode [251, 255]) = some [251, 255] := by decide
 
+/-! ### full round trip, canonical acceptance, encoder totality -/
+
+/-- the two facts the partial round trip left open, for every input -/
+theorem C09_parseInt_showInt (bits : Nat) (i : Int)
+    (hlo : -(2 ^ (bits - 1) : Int) ≤ i) (hhi : i < (2 ^ (bits - 1) : Int)) : parseInt bits (showInt i) = some i :=
+  parseInt_showInt bits i hlo hhi
+
+theorem C09_parseUint_showInt (bits : Nat) (i : Int) (hlo : 0 ≤ i) (hhi : i < (2 ^ bits : Int)) :
+    parseUint bits (showInt i) = some i :=
+  parseUint_showInt bits i hlo hhi
+
+theorem C09_b64_roundtrip (b : Bytes) : b64Decode (b64Encode b) = some b :=
+  b64Decode_encode b
+
+/-- **Round trip, all kinds and cardinalities.** For every typed field value — singular (set or unset), repeated,
+    map with every key kind; bool, int32/64, uint32/64 (incl. 2^63..2^64−1), float/double (incl. NaN, ±Infinity),
+    string, bytes, enum (known, alias, unknown number, NullValue) — marshalling succeeds and decoding the result
+    into a fresh message makes the field read back exactly the value. Holds for any marshal options
+    (enum names or numbers, with or without emitted defaults). -/
+theorem C09_roundtrip (ops : FloatOps) (hl : FloatLaws ops) (o : Opts) (c : Card) (k : Kind) (f : Field)
+    (hn : EnumNamesUnique k) (ht : FieldTyped c k f) :
+    ∃ j, encode ops o k f = .ok j ∧ ∃ g, decode ops o c k j = .ok g ∧ g.read k = f.read k := by
+  cases c with
+  | sing =>
+    cases f with
+    | sing v =>
+      cases v with
+      | some v =>
+        obtain ⟨j, hj, hr⟩ := marshalScalar_reads ops hl o k v hn ht
+        exact ⟨j, hj, _, decode_sing_reads ops o k j v hr, rfl⟩
+      | none =>
+        obtain ⟨j, hj, hr⟩ := marshalScalar_reads ops hl o k (defaultOf k) hn (typed_default k)
+        exact ⟨j, hj, _, decode_sing_reads ops o k j _ hr, rfl⟩
+    | list xs => exact absurd ht (by simp [FieldTyped])
+    | map kvs => exact absurd ht (by simp [FieldTyped])
+  | rep =>
+    cases f with
+    | sing v => cases v <;> exact absurd ht (by simp [FieldTyped])
+    | map kvs => exact absurd ht (by simp [FieldTyped])
+    | list xs =>
+      simp only [FieldTyped] at ht
+      by_cases he : (xs.isEmpty && !o.emitDefaults) = true
+      · have hx : xs = [] := by
+          simp only [Bool.and_eq_true, List.isEmpty_iff] at he; exact he.1
+        subst hx
+        have hed : o.emitDefaults = false := by simpa using he
+        exact ⟨.null, by simp [encode, hed], _, rfl, rfl⟩
+      · obtain ⟨js, hjs, hr⟩ := marshalListLoop_reads ops hl o k hn xs ht
+        exact ⟨.arr js, by simp [encode, he, hjs, Res.bind], _, decode_list_reads ops o k js xs hr, rfl⟩
+  | map kk =>
+    cases f with
+    | sing v => cases v <;> exact absurd ht (by simp [FieldTyped])
+    | list xs => exact absurd ht (by simp [FieldTyped])
+    | map kvs =>
+      simp only [FieldTyped] at ht
+      obtain ⟨hk, hty, hu⟩ := ht
+      by_cases he : (kvs.isEmpty && !o.emitDefaults) = true
+      · have hx : kvs = [] := by
+          simp only [Bool.and_eq_true, List.isEmpty_iff] at he; exact he.1
+        subst hx
+        have hed : o.emitDefaults = false := by simpa using he
+        exact ⟨.null, by simp [encode, hed], _, rfl, rfl⟩
+      · obtain ⟨es, hes, hr⟩ := marshalMapLoop_reads ops hl o kk k hn hk kvs hty
+        exact ⟨.obj es, by simp [encode, he, hes, Res.bind], _, decode_map_reads ops o kk k es kvs hr hu, rfl⟩
+
+/-- **The decoder accepts everything the canonical proto3 JSON encoder emits** (`canonEncode`, Spec.lean: 64-bit
+    integers as strings, 32-bit as numbers, enum names, padded std base64, "NaN"/"Infinity"/"-Infinity", map keys
+    as strings) and stores exactly the encoded value — all kinds, singular / repeated / map with every key kind.
+    `cfmt` is the canonical encoder's float formatter; `hc` says its output parses back (shortest round-trip). -/
+theorem C09_accepts_canonical (ops : FloatOps) (hl : FloatLaws ops) (cfmt : Bool → Nat → Bytes)
+    (hc : ∀ b bits, ops.parse b (cfmt b bits) = some (.fin bits)) (o : Opts) (c : Card) (k : Kind) (f : Field)
+    (hn : EnumNamesUnique k) (ht : FieldTyped c k f) :
+    ∃ j, canonEncode cfmt k f = some j ∧ ∃ g, decode ops o c k j = .ok g ∧ g.read k = f.read k := by
+  cases c with
+  | sing =>
+    cases f with
+    | sing v =>
+      cases v with
+      | some v =>
+        obtain ⟨j, hj, hr⟩ := canonEncScalar_reads ops hl cfmt hc o k v hn ht
+        exact ⟨j, hj, _, decode_sing_reads ops o k j v hr, rfl⟩
+      | none =>
+        obtain ⟨j, hj, hr⟩ := canonEncScalar_reads ops hl cfmt hc o k (defaultOf k) hn (typed_default k)
+        exact ⟨j, hj, _, decode_sing_reads ops o k j _ hr, rfl⟩
+    | list xs => exact absurd ht (by simp [FieldTyped])
+    | map kvs => exact absurd ht (by simp [FieldTyped])
+  | rep =>
+    cases f with
+    | sing v => cases v <;> exact absurd ht (by simp [FieldTyped])
+    | map kvs => exact absurd ht (by simp [FieldTyped])
+    | list xs =>
+      simp only [FieldTyped] at ht
+      obtain ⟨js, hjs, hr⟩ := canonEncList_reads ops hl cfmt hc o k hn xs ht
+      exact ⟨.arr js, by simp [canonEncode, hjs], _, decode_list_reads ops o k js xs hr, rfl⟩
+  | map kk =>
+    cases f with
+    | sing v => cases v <;> exact absurd ht (by simp [FieldTyped])
+    | list xs => exact absurd ht (by simp [FieldTyped])
+    | map kvs =>
+      simp only [FieldTyped] at ht
+      obtain ⟨hk, hty, hu⟩ := ht
+      obtain ⟨es, hes, hr⟩ := canonEncMap_reads ops hl cfmt hc o kk k hn hk kvs hty
+      exact ⟨.obj es, by simp [canonEncode, hes], _, decode_map_reads ops o kk k es kvs hr hu, rfl⟩
+
+/-- The encoder never panics, for any value (typed or not), kind and options. -/
+theorem C09_encode_no_panic (ops : FloatOps) (o : Opts) (k : Kind) (f : Field) : encode ops o k f ≠ .panic :=
+  encode_ne_panic ops o k f
+
+/-- Encoder totality: every typed field value is marshalled (no float environment laws needed — in particular
+    NaN and ±Infinity no longer fail); an error can only come from a value outside the field's typed domain. -/
+theorem C09_encode_total (ops : FloatOps) (o : Opts) (c : Card) (k : Kind) (f : Field) (ht : FieldTyped c k f) :
+    ∃ j, encode ops o k f = .ok j := by
+  cases c <;> cases f <;> simp only [FieldTyped] at ht
+  · rename_i v
+    cases v with
+    | some v => exact marshalScalar_total ops o k v ht
+    | none => exact marshalScalar_total ops o k _ (typed_default k)
+  · rename_i xs
+    obtain ⟨js, hjs⟩ := marshalListLoop_total ops o k xs ht
+    simp only [encode]
+    split
+    · exact ⟨_, rfl⟩
+    · exact ⟨.arr js, by simp [hjs, Res.bind]⟩
+  · rename_i kk kvs
+    obtain ⟨es, hes⟩ := marshalMapLoop_total ops o k kvs (fun p hp => (ht.2.1 p hp).2)
+    simp only [encode]
+    split
+    · exact ⟨_, rfl⟩
+    · exact ⟨.obj es, by simp [hes, Res.bind]⟩
+
+theorem C09_encode_error_untyped (ops : FloatOps) (o : Opts) (c : Card) (k : Kind) (f : Field)
+    (he : encode ops o k f = .err) : ¬ FieldTyped c k f := by
+  intro ht
+  obtain ⟨j, hj⟩ := C09_encode_total ops o c k f ht
+  rw [hj] at he; cases he
+
+/-- the enum-name hypothesis of the round-trip theorems follows from what protodesc validates: distinct names -/
+theorem C09_enum_names_unique (vals : EnumDesc) (nv : Bool) (h : namesNodup vals = true) :
+    EnumNamesUnique (.enum vals nv) :=
+  enumNamesUnique_of_nodup vals nv h
+
 /-! ### non-vacuity: a float environment satisfying the laws; canonical values are accepted -/
 
 /-- toy float environment: finite values are written as their bit pattern in decimal and read back -/
@@ -212,3 +353,28 @@ example : canon C09_toyOps { discard := false } .sing .uint32 (.num [45, 49]) = 
 example : canon C09_toyOps { discard := false } .sing .int32 (.num [49, 46, 53]) = some .err := by decide
 example : canon C09_toyOps { discard := false } .sing .int32 (.num [49, 101, 50]) = some (.ok (.sing (some (.int 100)))) := by decide
 example : decode C09_toyOps { discard := false } .sing .bytes (.arr [.num [49]]) = .err := by decide
+
+/-- the toy environment satisfies the laws (the hypotheses of the round-trip theorems are satisfiable) -/
+theorem C09_toyOps_laws : FloatLaws C09_toyOps := by
+  refine ⟨fun _ => rfl, fun _ => rfl, fun _ => rfl, ?_⟩
+  intro b bits
+  have hd := showNat_decimal bits
+  have hne := decimal_ne_nil hd
+  have h1 : showNat bits ≠ strNaN := by
+    intro e; have := hd.digits; rw [e] at this; revert this; decide
+  have h2 : showNat bits ≠ strInf := by
+    intro e; have := hd.digits; rw [e] at this; revert this; decide
+  have h3 : showNat bits ≠ strNegInf := by
+    intro e; have := hd.digits; rw [e] at this; revert this; decide
+  simp [C09_toyOps, h1, h2, h3, hd.value]
+  exact ⟨by simpa [List.all_eq_true] using hd.digits, by intro e; simp [e] at hne⟩
+
+example : ∃ j, encode C09_toyOps { discard := true } .uint64 (.map [(.bool true, .int 18446744073709551615)]) = .ok j ∧
+    ∃ g, decode C09_toyOps { discard := true } (.map .bool) .uint64 j = .ok g ∧
+      g.read .uint64 = (Field.map [(.bool true, .int 18446744073709551615)]).read .uint64 :=
+  C09_roundtrip C09_toyOps C09_toyOps_laws _ (.map .bool) .uint64 _ trivial
+    ⟨rfl, by intro p hp; simp at hp; subst hp; exact ⟨trivial, by decide, by decide⟩, rfl⟩
+example : canonEncode C09_toyOps.fmt .int64 (.list [.int (-9223372036854775808)])
+    = some (.arr [.str [45,57,50,50,51,51,55,50,48,51,54,56,53,52,55,55,53,56,48,56]]) := by rfl
+example : encode C09_toyOps { discard := true } .double (.list [.flt .nan, .flt .ninf])
+    = .ok (.arr [.str strNaN, .str strNegInf]) := by rfl
